@@ -3,6 +3,7 @@ R5 (per-input accumulators reset)."""
 import os
 import r_stream
 from zw import Broken
+from common import apply as _apply_unused
 
 
 def apply(rep, rid, what, res, floor):
